@@ -126,7 +126,8 @@ def run(eng: Engine, ck: Check):
     ck.ob('R-C20-CAP', cp, cp.node, 'copy_tokens carries the refill clock over (a new limiter does not start with a full second of credit)', ok, '',
           construct='copy_tokens clock')
     li = lim.methods['__init__']
-    ok = 'limit_bps=limit_kbps * 1024' in unparse(li.node)
+    ok = any(kw(x, 'limit_bps') is not None and pat.match(kw(x, 'limit_bps'), pat.compile_pattern(f'{[p_ for p_ in li.params if p_ != "self"][0]} * 1024')[0]) is not None
+             for x in calls_in(li.node)) or any(isinstance(n, ast.Assign) and unparse(n.targets[0]) == 'self.limit_bps' and pat.match(n.value, pat.compile_pattern(f'{[p_ for p_ in li.params if p_ != "self"][0]} * 1024')[0]) is not None for n in walk_local(li.node))
     ck.ob('R-C20-CAP', li, li.node, 'limit_bps = limit_kbps * 1024', ok, '', construct='limit unit')
 
     # ---- R-C20-GATE
@@ -189,9 +190,19 @@ def run(eng: Engine, ck: Check):
           'the two siblings differ after exchanging upload/download: ' + next((f'`{x}` vs `{y}`' for x, y in zip(swap_text(a).split('\n'), b.split('\n')) if x != y), ''),
           construct='speed limit siblings agree')
     for fn, side in ((su, 'upload'), (sd, 'download')):
-        src = body_text(fn)
-        ok = f'new_limiter = RateLimiter.create_limiter({fn.params[1]})' in src and f'new_limiter.copy_tokens(self._{side}_rate_limiter)' in src and \
-            f'self._{side}_rate_limiter = new_limiter' in src and f'conn.{side}_rate_limiter = self._{side}_rate_limiter' in src and 'for conn in self.peer_connections' in src
+        mk = pfind(fn.node, f'$n = RateLimiter.create_limiter({fn.params[1]})')
+        ok = len(mk) == 1
+        if ok:
+            nl = mk[0][1]['n']
+            cps = pfind(fn.node, f'{nl}.copy_tokens(self._{side}_rate_limiter)')
+            inst = pfind(fn.node, f'self._{side}_rate_limiter = {nl}')
+            loops = [n for n in walk_local(fn.node) if isinstance(n, ast.For) and unparse(n.iter) == 'self.peer_connections' and isinstance(n.target, ast.Name)
+                     and (phas(n, f'{n.target.id}.{side}_rate_limiter = self._{side}_rate_limiter') or phas(n, f'{n.target.id}.{side}_rate_limiter = {nl}'))]
+            ok = len(cps) == 1 and len(inst) == 1 and len(loops) == 1 and not eng.guards_at(fn, inst[0][0]) and not eng.guards_at(fn, loops[0])
+            if ok:
+                # the tokens are copied before the old limiter is replaced, and only an existing old limiter is copied from
+                c_ = eng.cfg(fn)
+                ok = c_.nodes_for(cps[0][0])[0].id < c_.nodes_for(inst[0][0])[0].id
         ck.ob('R-C20-SHARED', fn, fn.node, f'{fn.name}: builds the limiter with create_limiter(limit), copies tokens from the old {side} limiter, installs it and '
               're-assigns it to every registered connection', ok, '', construct=f'{fn.name} shape')
     cl = eng.func(RL, 'RateLimiter.create_limiter')
